@@ -30,8 +30,9 @@ JOBS = int(os.environ.get("VERIF_GO_JOBS", "12"))
 MODE = {"C01": "c01", "C02": "c02", "C27": "c27"}
 
 ALL_EDITS = ["AddMsg", "AddEnum", "AddVal", "AddFld", "AddMap", "AddOneof", "AddExt", "AddSvc", "AddMtd",
-             "AddImport", "AddRange", "AddRName", "AddDflt", "AddJson", "AddAliasVal", "AddDep", "AddGroup"]
-SMALL_EDITS = ["AddVal", "AddImport", "AddRange", "AddRName", "AddDflt", "AddJson", "AddGroup"]
+             "AddImport", "AddRange", "AddRName", "AddDflt", "AddJson", "AddAliasVal", "AddDep", "AddGroup",
+             "AddOptUse", "AddOptExt"]
+SMALL_EDITS = ["AddVal", "AddImport", "AddRange", "AddRName", "AddDflt", "AddJson", "AddGroup", "AddOptUse"]
 ALL_MUTS = ["SetNum", "SetLabel", "Retarget", "SetSyntax", "SetName", "SetPkg", "SetValNum", "DropLeaf",
             "SetMapKey", "SetDflt", "DropAlias", "SetImpKind"]
 
@@ -79,11 +80,13 @@ ALL_RULES = ["V-import-exists", "V-import-dup", "V-import-cycle", "V-dup-symbol"
              "V-enum-empty", "V-enum-first-zero", "V-enum-dup-num", "V-oneof-empty", "V-map-key", "V-p3-default",
              "V-default-repeated", "V-default-type", "V-default-message", "V-default-enum-value", "V-default-enum-ident",
              "V-json-conflict",
-             "V-ref-resolve", "V-ref-kind", "V-ext-range", "V-ext-dup", "V-p3-ext", "V-closed-enum-implicit"]
+             "V-ref-resolve", "V-ref-kind", "V-ext-range", "V-ext-dup", "V-p3-ext", "V-closed-enum-implicit",
+             "V-opt-extendee", "V-opt-dup"]
 QUICK_UNCOVERED = ["V-p3-ext"]     # needs an AddExt mutant (thorough only)
 
 SMALL_BASES = ["p2", "p3", "ed", "p2p2", "p3p2", "p2p3", "edp2", "p3p3", "p2pub", "p3pub"]
 RICH_BASES = ["R2", "R3", "RE"]
+OPT_BASES = ["O2", "O3", "OE"]
 
 
 def runs(tier, pid):
@@ -100,30 +103,32 @@ def runs(tier, pid):
 
     if tier == "thorough":
         out = [
-            ("rich-mut", c(RICH_BASES, ["a"], 0, mutadds=SMALL_EDITS + ["AddExt"]), None, None, 1.0, 1.0),
+            ("rich-mut", c(RICH_BASES + OPT_BASES, ["a"], 0, mutadds=SMALL_EDITS + ["AddExt", "AddOptExt"]), None, None, 1.0, 1.0),
             ("small-1edit", c(SMALL_BASES, ["none", "a", "ab"], 1, mutmaxn=0), None, None, 1.0, 1.0),
-            ("rich-1edit", c(RICH_BASES, ["a"], 1, mutmaxn=0, muts=[], mutadds=[]), None, None, 0.5 if slow else 1.0, 1.0),
+            ("rich-1edit", c(RICH_BASES + OPT_BASES, ["a"], 1, mutmaxn=0, muts=[], mutadds=[]), None, None,
+             0.5 if slow else 1.0, 1.0),
             ("single-2edits", c(["p2", "p3", "ed"], ["a"], 2, mutmaxn=1, types=("a", "m"), flds=("zf", "z_f"),
                                 vals=("za",), exts=("zx",)), None, None, 0.3 if slow else 1.0, 0.3 if slow else 1.0),
-            ("sim-deep", c(SMALL_BASES + RICH_BASES, ["none", "a", "ab"], 5), 30, 7, 1.0, 1.0),
+            ("sim-deep", c(SMALL_BASES + RICH_BASES + OPT_BASES, ["none", "a", "ab"], 5), 30, 7, 1.0, 1.0),
         ]
-        return out[1:] if pid == "C02" else out     # rich-mut without mutations is just the three bases
+        return out[1:] if pid == "C02" else out     # rich-mut without mutations is just the bases themselves
     k = vf.seed() % len(SMALL_BASES)
     sb = SMALL_BASES[k]
     if pid == "C02":
-        # valid workspaces only: two small bases (rotating with the seed) grown by one edit, plus the rich bases
+        # valid workspaces only: two small bases (rotating with the seed) grown by one edit, plus the rich / option bases
         two = [SMALL_BASES[(k + i * 5) % len(SMALL_BASES)] for i in range(2)]
-        return [("rich+2small-1edit", c(RICH_BASES + two, ["a"], 1, grow=two), None, None, 1.0, 1.0)]
+        return [("rich+2small-1edit", c(RICH_BASES + OPT_BASES + two, ["a"], 1, grow=two), None, None, 1.0, 1.0)]
     return [
-        ("rich-mut+small", c(RICH_BASES + [sb], ["a"], 1, grow=[sb], mutbases=RICH_BASES,
+        ("rich-mut+small", c(RICH_BASES + OPT_BASES + [sb], ["a"], 1, grow=[sb], mutbases=RICH_BASES + OPT_BASES,
                              wide=["message", "enum", "service"]),
          None, None, 1.0, 0.6 if slow else 1.0),
     ]
 
 
-RULE = ("a case = one workspace (1-2 files) exported by TLC, compiled by the real compiler(s); feature vector = the set of "
+RULE = ("a case = one workspace (1-3 files) exported by TLC, compiled by the real compiler(s); feature vector = the set of "
         "rule ids it exercises: syntax per file, declaration kinds and attributes present (labels, map, oneof member, "
-        "proto3 optional, default, json_name, extension / reserved ranges, reserved names, streaming, nesting, imports), "
+        "proto3 optional, default, json_name, extension / reserved ranges, reserved names, streaming, nesting, imports, groups, "
+        "allow_alias, deprecated, custom options per element kind), "
         "the broken V-rule of a mutant, and the ProtoLang lookup rule ids (L-/S-/K-/I-, outcome) of every reference; "
         "non-trivial = a mutant, or a workspace with at least one reference or more than four features; distinct by vector")
 
@@ -131,12 +136,13 @@ ASSUMPTIONS = {
     "C01": [
         "protoc is not installed: the oracle is spec/ProtoValid.tla Broken(ws), each rule written from the language definition "
         "and protoc's descriptor.cc / parser.cc and quoted with protoc's error text; the verdict is relative to that specification",
-        "decided only inside the modelled fragment (ProtoValid!Covered): 1-2 files, proto2 / proto3 / edition 2023, messages (two "
-        "levels), enums, fields with labels and scalar or named types, maps, oneofs, extensions and extension ranges, reserved "
-        "ranges / names, defaults (int, bool, string, enum), json_name, services with streaming, plain / public imports; no "
-        "custom options, groups, features, weak imports",
+        "decided only inside the modelled fragment (ProtoValid!Covered): 1-3 files, proto2 / proto3 / edition 2023, messages (two "
+        "levels), enums (allow_alias), fields with labels and scalar or named types, maps, oneofs, groups, extensions and extension "
+        "ranges, reserved ranges / names, defaults (int, bool, string, enum), json_name, deprecated, services with streaming, "
+        "plain / public imports, custom options `(name) = 1` on files, messages, fields, enums, values, services, methods; no "
+        "features, weak imports, option values other than 1, options on oneofs / extension ranges",
         "excluded as not certain without protoc: a closed (proto2) enum used from a proto3 file by a repeated / optional / oneof / "
-        "map field; JSON-name conflicts that involve a custom json_name; float / double defaults",
+        "map field; JSON-name conflicts that involve a custom json_name; float / double defaults; allow_alias without an alias",
         "a rejected mutant must carry an error about its broken rule (table reasonPatterns in harness/valid/cases.go, the "
         "stable compiler's wording); for unresolved references any reference error is accepted (precise classes are C15's)",
         "renderer / parse-back (harness/_common/ws, explicit conventions) are trusted base, cross-checked on every case that parses",
@@ -149,8 +155,9 @@ ASSUMPTIONS = {
         "map_entry); fields (name, number, label, type, type_name, extendee, json_name, oneof_index, proto3_optional, default_value); "
         "enums and values; services and methods (types, streaming); any other member that is set in the real descriptor (options, "
         "unknown fields, weak dependencies) is reported as unexpected",
-        "option values are not in the fragment (no options are generated); valid cases the compiler rejects are C01's business "
-        "and are skipped here (counted; the run fails as vacuous when more than half are skipped)",
+        "option values: allow_alias, deprecated, map_entry and custom integer options set to 1 (compared by extension number on the "
+        "wire form, so known / unknown storage does not matter); other option values are C20's; valid cases the compiler rejects "
+        "are C01's business and are skipped here (counted; the run fails as vacuous when more than half are skipped)",
     ],
     "C27": [
         "the experimental compiler is driven exactly like internal/testing/dualcompiler/new_adapter.go: one queries.IR per file, "
